@@ -62,23 +62,28 @@ def run(ctx):
     rule = 'C10.dispatch'
     f = ctx.fn('lib', 'Game::<I, A>::solve', rule)
     if f is not None:
-        n = 0
-        for bi, t, p in f.calls():
-            s = short(p)
-            if not s.startswith('solve_'):
-                continue
-            n += 1
-            cs = f.conds(bi)
-            meth = [c for c in cs if c['kind'] == 'variant' and 'SolveMethod' in str(c['raw'])]
-            single = [c for c in cs if c['kind'] in ('Eq', 'bool', 'Ne')]
-            variant = meth[-1]['variants'][0] if meth else '?'
-            want = {'Full': 'solve_full', 'Sampled': 'solve_sampled', 'External': 'solve_external'}.get(variant, '?')
-            one_thread = bool(single) and single[0].get('truth') is True
-            want += '_single' if one_thread else '_multi'
-            ctx.verdict(s == want, rule, '%s:%s:%s' % (rule, variant, 'single' if one_thread else 'multi'), 'SolveMethod::X with one / many threads selects solve_x_single / solve_x_multi', f.where(bi),
-                        'arm %s, threads==1 edge %s -> calls %s' % (variant, one_thread, s), breaks='a method name selects another algorithm')
-        if n < 6:
-            ctx.anchor_lost(rule, 'Game::solve dispatch calls', 'found %d of 6' % n)
+        # decision table (method, one thread?) -> solver, by abstract interpretation of Game::solve with its helpers
+        # inlined: independent of how the dispatch is spelled (== on NonZero, .get() == 1, match, split functions)
+        import dispatch
+        it = dispatch.solve_table(f)
+        tab = {}
+        for p_ in it.paths:
+            tab.setdefault((p_.tokens.get('method'), p_.tokens.get('one')), set()).add(p_.sink)
+        if it.overflow or not any(k[1] is not None and k[0] is not None for k in tab):
+            ctx.anchor_lost(rule, 'Game::solve dispatch', 'paths: %d, overflow: %s, keys: %s' % (len(it.paths), it.overflow, sorted(tab, key=str)[:6]))
+        else:
+            for variant, stem in (('Full', 'solve_full'), ('Sampled', 'solve_sampled'), ('External', 'solve_external')):
+                for one in (True, False):
+                    want = stem + ('_single' if one else '_multi')
+                    sinks = set(tab.get((variant, one), set()))
+                    undecided = tab.get((variant, None), set())
+                    solvers = {s_[0] for s_ in sinks if s_[0] is not None}
+                    key = '%s:%s:%s' % (rule, variant, 'single' if one else 'multi')
+                    if not solvers and undecided:
+                        ctx.anchor_lost(rule, 'Game::solve: one-thread test for %s' % variant, 'the thread-count test was not recognised on these paths: %s' % sorted(undecided, key=str))
+                        continue
+                    ctx.verdict(solvers == {want}, rule, key, 'SolveMethod::X with one / many threads selects solve_x_single / solve_x_multi', f.where(0),
+                                'SolveMethod::%s, threads==1 %s -> %s' % (variant, one, sorted(solvers)), breaks='a method name selects another algorithm')
     # (4) RNG confinement
     rule = 'C10.rng-confinement'
     callers = set()
